@@ -29,11 +29,17 @@ Real code (run over harness.fakecourier, virtual clock):
                  points; the composite operations are programs of the product LTS (controller `Ctl` of Model/OwnerEnv.lean: the
                  spin loops are loops whose exits are clock / environment choices), compared step by step like family 'sched'
                  (labels, enabled sets, registry, results, final state); max_parallelism in {1, 2}.
-  family 'scheda' (round 6): orchestrate.as_completed under the scheduler as the OBSERVED SCRIPT of its primitive operations: every
-                 pool-level call made by the body of as_completed (pool.workers, next_idle_worker with the actual worker order,
-                 release_all(unused), acquired_workers, task.is_alive, worker.submit, the final release_all()) is logged and preceded by
-                 a marker yield (harness/lib_owner.py: install_as_completed_probes), the callee runs unchanged; the schedule is replayed
-                 on the product LTS with that script; a finished as_completed must have logged the finaliser last; oracle as for run.
+  family 'scheda' (round 6; round 11: step by step against the Lean PROGRAM): orchestrate.as_completed under the scheduler.  Yield points: a
+                 marker before every pool-level call made by the body of as_completed (pool.workers, next_idle_worker, release_all(unused),
+                 acquired_workers, task.is_alive, worker.submit, the final release_all()) and every task.done() poll (harness/lib_owner.py:
+                 install_as_completed_probes; the callees run unchanged).  The model side executes the program `asCompleted` of the product LTS
+                 (controller Ctl.ac / acPlan of Model/OwnerEnv.lean: task iterator, retry stack, running tasks, preferred / reserved sets, submit
+                 loop, three-way completion handling, release_all(unused), finally); from the real run it receives ONLY the environment's
+                 choices (the worker order handed to next_idle_worker = set iteration order + random.shuffle, the set handed to
+                 release_all = random.sample + set iteration order), which the controller validates against the Python semantics; which call
+                 comes next is decided by the model and compared step by step (labels, enabled sets, registry, how the generator ended, final
+                 state).  Cases: 0-4 tasks (ok / raising), all results / k then close / closed unstarted, ignore_failures, competing pools, late /
+                 failed replies, and (rand_scheda_faults) workers dying / going stale / coming back in the middle of the run.
 Model: lean/MlModel/Model/Registry.lean, Owner.lean, OwnerEnv.lean; theorems: lean/MlModel/Properties/C20.lean.
 `extra`: exhaustive exploration of all interleavings of small configurations of the Owner LTS in the Lean
 driver (a *test* of the model / theorem hypotheses), the racy orders of F13 / F14 executed by hand on the
@@ -66,9 +72,11 @@ TRUSTED = [
     'and the done() polls of courier_worker.wait as BLOCKING yields (the stutter-free equivalent of the two waits); time.time() of '
     'courier_utils.py is fused into the step; max_parallelism in {1, 2}; the base script of pieces is a prophecy discovered by the '
     'driver and re-checked on the pure xstep? in a second pass',
-    'family scheda: the control flow of orchestrate.as_completed (which pool-level call comes next, with which worker order) is OBSERVED, '
-    'not modelled: class-level probes active only for calls whose caller frame is as_completed log the call and yield a marker; '
-    'orchestrate.time.sleep is fused',
+    'family scheda (round 11): the control flow of orchestrate.as_completed IS the Lean program OwnerEnv.acPlan; taken from the real run and '
+    'validated by the model, not predicted: the iteration order of Python sets, random.shuffle, random.sample (the worker lists passed to '
+    'next_idle_worker and release_all); class-level probes active only for calls whose caller frame is as_completed log the call and yield a '
+    'marker, task.done() polled from that frame is a yield point; orchestrate.time.sleep(0.0) is fused; the thread-local code after the last '
+    'step of task.is_alive (set_exception on the future) is fused into that step, in the model alike (afterAliveAC)',
 ]
 ASSUMPTIONS = [
     'times are integral ticks of a virtual clock; thresholds in {100, 180, 400}',
@@ -96,7 +104,8 @@ RULE = ('live: small-exhaustive event sequences (length<=3 quick / <=4 thorough)
         '1-3 workers with max_parallelism 1-2, schedule as in sched, cut after 1200 steps (spin loops); '
         'scheda: thread 0 consumes as_completed over 0-4 tasks (ok / raising; all results, or k then close, or closed unstarted; '
         'ignore_failures on / off), other pools compete, the same pool may be driven by a non-acquiring second thread, environment as in '
-        'schedc with mostly short ticks and a transport thread of 40-120 deliveries; '
+        'schedc with mostly short ticks and a transport thread of 40-120 deliveries; plus 160 (thorough 4000) cases with 1-2 workers and a fault '
+        '(die / heartbeat going stale, optionally revive) placed in the middle of the run by idling the environment thread first; '
         'distinct = distinct canonical case JSON')
 
 THRS = [100, 180, 400]
@@ -425,7 +434,7 @@ def rand_scheda_faults(rng):
     ops += idle(3, 40) + [dict(op='revive', w=w)]
   threads.append(dict(kind='env', ops=ops))
   # the transport: answers late (after its own idling), sometimes fails a reply
-  threads.append(dict(kind='env', ops=idle(0, 60) + [dict(op='deliver', k=0, fail=rng.random() < 0.15)
+  threads.append(dict(kind='env', ops=idle(1, 60) + [dict(op='deliver', k=0, fail=rng.random() < 0.15)
                                                        for _ in range(rng.randrange(0, 30))]))
   return dict(fam='scheda', nworkers=nworkers, pw=pw, thr=100, now=1000, mp=[rng.choice([1, 2]) for _ in range(nworkers)],
               reg0=['alive'] * nworkers, threads=threads, sched=dict(kind='random', seed=rng.randrange(10**9), changes=3, horizon=80))
@@ -485,7 +494,7 @@ def _gen_cases(ctx):
   for _ in range(160 if quick else 3000):
     yield rand_scheda(rng)
   # --- scheda with faults in the middle of the run (round 11; after everything else: earlier random streams unchanged)
-  for _ in range(220 if quick else 4000):
+  for _ in range(160 if quick else 4000):
     yield rand_scheda_faults(rng)
 
 
